@@ -151,13 +151,33 @@ def run_split(mods, data, sr, sw, ch, durs, flags, container="bytes", spelling=N
     inp = data
     need_params = True
     reader_input = False
+    base_off = (extra or {}).get("preread", 0) * bps if container in ("source_preread", "raw_lazy_preread") else 0
     if container in ("bytes",):
         inp = data
-    elif container == "region":
-        inp = region_obj if region_obj is not None else core.AudioRegion(data, sr, sw, ch)
+    elif container in ("region", "region_conflict", "region_started"):
+        inp = region_obj if region_obj is not None else core.AudioRegion(data, sr, sw, ch, *((1.75,) if container == "region_started" else ()))
         need_params = False
+        if container == "region_conflict":
+            # a region knows its own parameters: whatever the caller passes for them (a settings dict written for other files) is ignored
+            kw.update({"sampling_rate": sr * 2 + 1, "sample_width": 4 if sw != 4 else 2, "channels": ch + 1} if (len(data) // 7) % 2 else
+                      {"sr": sr * 2 + 1, "sw": 4 if sw != 4 else 2, "ch": ch + 1})
     elif container == "source":
         inp = aio.BufferAudioSource(data, sr, sw, ch)
+        need_params = False
+    elif container in ("source_preread", "raw_lazy_preread"):
+        # a source that is already open and partly consumed when it is handed to split(): what remains is what gets split,
+        # whether the file was loaded eagerly or lazily
+        k0 = (extra or {}).get("preread", 0)
+        if container == "source_preread":
+            inp = aio.BufferAudioSource(data, sr, sw, ch)
+        else:
+            path = os.path.join(tmpdir, "p.raw")
+            with open(path, "wb") as f:
+                f.write(data)
+            inp = aio.get_audio_source(path, sampling_rate=sr, sample_width=sw, channels=ch, large_file=True)
+        inp.open()
+        if k0 > 0:
+            inp.read(k0)
         need_params = False
     elif container == "lazysource":
         inp = rec.logging_source(data, sr)
@@ -242,7 +262,7 @@ def run_split(mods, data, sr, sw, ch, durs, flags, container="bytes", spelling=N
                 if abs(first - fi) > 1e-6:
                     fi = -1
                 n = len(r)
-                ok = (fi >= 0 and bytes(r) == data[fi * bps:(fi + n) * bps] and r.sampling_rate == sr
+                ok = (fi >= 0 and bytes(r) == data[base_off + fi * bps:base_off + (fi + n) * bps] and r.sampling_rate == sr
                       and r.sample_width == sw and r.channels == ch and len(r.data) == n * bps)
                 tok = (abs((r.end - r.start) - r.duration) < 1e-9 and abs(r.duration - n / sr) < 1e-9
                        and r.meta is not None and r.meta.start == r.start and r.meta.end == r.end)
@@ -439,7 +459,8 @@ def c06_cases(rng, tier, M):
 # ------------------------------------------------------------------------------------------------
 # C09 variants
 # ------------------------------------------------------------------------------------------------
-CONTAINERS = ["bytes", "region", "source", "reader", "raw", "raw_lazy", "raw_fmt", "wav", "wav_lazy", "wav_fmt", "wav_path", "stdin", "stdin_pipe"]
+CONTAINERS = ["bytes", "region", "region_conflict", "region_started", "source", "reader", "raw", "raw_lazy", "raw_fmt", "wav", "wav_lazy", "wav_fmt",
+              "wav_path", "stdin", "stdin_pipe"]
 PAIRS = ["sampling_rate", "sample_width", "channels", "analysis_window", "validator", "audio_format", "max_read"]
 
 
@@ -474,7 +495,7 @@ def c09_group(rng, tier, M, tmpdir):
             sp["energy_threshold"] = rng.choice(["long", "short", "both"])
         elif valmode == "energy":
             sp["energy_threshold"] = rng.choice(["long", "short", "both"])
-        method = cont == "region" and rng.random() < .5
+        method = cont in ("region", "region_conflict", "region_started") and rng.random() < .5
         ev = run_split(M, data, sr, sw, ch, durs, flags, container=cont, spelling=sp, tmpdir=tmpdir, validator=valmode,
                        method=method, val_kind=rng.choice(["callable", "DataValidator"]), extra=extra)
         cc = dict(c)
@@ -482,6 +503,13 @@ def c09_group(rng, tier, M, tmpdir):
             cc = cfg_of(case["units"], sr, B, flags, rdr=False)     # block duration equals the analysis window: same counts
         out.append({"c": cc, "ev": ev, "peer": peer, "usepeer": True,
                     "info": f"container={cont} spelling={sp} validator={valmode} method={method} extra={extra}"})
+    # an already open, partly read source: split() works on what remains, eager and lazy alike
+    if n > 2 * B:
+        k0 = rng.choice([B, 2 * B, rng.randint(1, n - 1)])
+        refp = run_split(M, data[k0 * sw * ch:], sr, sw, ch, durs, flags, extra=dict(base_extra))
+        for cont in ("source_preread", "raw_lazy_preread"):
+            ev = run_split(M, data, sr, sw, ch, durs, flags, container=cont, tmpdir=tmpdir, extra=dict(base_extra, preread=k0))
+            out.append({"c": c, "ev": ev, "peer": regs_of(refp), "usepeer": True, "info": f"container={cont}: opened and {k0} samples read before split()"})
     # max_read = t  ==  first round(t*rate) samples
     for rep in range(4):
         keep = rng.randint(0, n + B)
@@ -510,7 +538,7 @@ def c09_group(rng, tier, M, tmpdir):
         refm = run_split(M, data[: min(keep, n) * sw * ch], sr, sw, ch, durs, flags, extra=dict(base_extra))
         peerm = regs_of(refm)
         exact_reader = (case["units"][3] * sr) % U == 0
-        for cont in rng.sample([x for x in CONTAINERS if x != "region" and (x != "reader" or exact_reader)], 4):
+        for cont in rng.sample([x for x in CONTAINERS if not x.startswith("region") and (x != "reader" or exact_reader)], 4):
             sp = {"max_read": rng.choice(["long", "short", "both"])}
             ev = run_split(M, data, sr, sw, ch, durs, flags, container=cont, spelling=sp, tmpdir=tmpdir, max_read=t, extra=dict(base_extra))
             out.append({"c": c, "ev": ev, "peer": peerm, "usepeer": True, "info": f"container={cont} max_read={t} (= first {keep} samples) spelling={sp}"})
@@ -574,9 +602,9 @@ def check(prop, tier, replay=None):
         for i in range(n):
             case = gen_case(rng, True, tier)
             data, _ = synth(case["pat"], case["B"], case["tail"], case["sw"], case["ch"])
-            cont = rng.choice(["bytes", "bytes", "region", "source"])
+            cont = rng.choice(["bytes", "bytes", "region", "source", "region_conflict", "region_started"])
             ev = run_split(M, data, case["sr"], case["sw"], case["ch"], to_floats(case["units"]), case["flags"], container=cont,
-                           method=(cont == "region" and rng.random() < .5), val_kind=rng.choice(["callable", "DataValidator"]),
+                           method=(cont.startswith("region") and rng.random() < .5), val_kind=rng.choice(["callable", "DataValidator"]),
                            validator=rng.choice(["custom", "custom", "energy"]))
             traces.append({"c": cfg_of(case["units"], case["sr"], case["B"], case["flags"]), "ev": ev,
                            "info": f"container={cont} fmt={case['sw']}x{case['ch']} tail={case['tail']}"})
